@@ -126,6 +126,19 @@ pub fn process_client_pointer_declaration<TCompilationProfile: CompilationProfil
     match parent_entity.selection_info {
         SelectionType::Object(_) => match target_entity.selection_info {
             SelectionType::Object(_to_object_entity_name) => {
+                // The target of a client pointer is fetched by id when the pointer is followed.
+                TCompilationProfile::NetworkProtocol::get_query_root_entity(
+                    db,
+                    target_entity.name.item,
+                )
+                .map_err(|e| {
+                    let location = client_pointer_declaration_item.target_type.location;
+                    Diagnostic::new(
+                        format!("Invalid client pointer target type. {}", e.0.message),
+                        location.to::<Location>().wrap_some(),
+                    )
+                })?;
+
                 add_client_pointer_to_object(db, client_pointer_declaration)?
             }
             SelectionType::Scalar(_) => {
